@@ -335,7 +335,7 @@ Definition decode_step (cf : cfg) (es : list entry) (c : bool) (p : pstate) : sr
         if passes cf =? 1 then Stop Ok true                        (* NewMultiPassReader returns r itself *)
         else
           let k := S (p_passes p) in                               (* r.passesCount++ *)
-          if p_pos p =? 0 then Stop Ok true                        (* !readInPass: io.EOF, "Ammo finished" *)
+          if p_pos p =? 0 then Stop Ok true       (* nothing read / nothing decoded in the pass (passGuard): io.EOF, "Ammo finished" *)
           else if (passes cf =? 0) || (k <? passes cf)
           then Cont {| p_ammo := p_ammo p; p_passes := k; p_pos := 0 |}   (* Seek(0); Read returns (0, nil) *)
           else Stop Ok true                                        (* io.EOF reaches the decoder: "Ammo finished" *)
@@ -391,10 +391,19 @@ Definition same_seq (ordered : bool) (n : nat) (a b : list nat) : bool :=
   if ordered then list_eqb a b
   else (length a =? length b) && forallb (fun i => count_id i a =? count_id i b) (seq 0 n).
 
-Inductive runclass := ROk | RCanceled | RNoAmmo | RErr | RHang.
+Inductive runclass := ROk | RCanceled | RNoAmmo | RErr | RHang | RRefused (* the constructor refused the file *).
 Definition is_rok (r : runclass) : bool := match r with ROk => true | _ => false end.
 Definition is_rok_or_canceled (r : runclass) : bool :=
   match r with ROk | RCanceled => true | _ => false end.
+Definition is_rhang (r : runclass) : bool := match r with RHang => true | _ => false end.
+
+(* newJsonlineDecoder peeks at the first JSON token (isArray): a jsonline file without any JSON
+   value is refused by the constructor (io.EOF), there is no provider to run *)
+Definition constructor_refuses (k : pkind) (es : list entry) : bool :=
+  match k, es with
+  | KHttp DJsonl _, [] => true
+  | _, _ => false
+  end.
 
 (* after a cancellation the provider may only have produced what its sink could buffer:
    the largest sink is grpc's (128) *)
@@ -404,6 +413,12 @@ Definition spec_b (lim pas : nat) (es : list entry) (cancel : option nat) (order
            (obs : list nat) (cl : bool) (rc : runclass) : bool :=
   let n := length es in
   let k := length obs in
+  match es with
+  | [] =>
+      (* a source without entries is outside C08's quantifier (C13 decides how it is rejected);
+         what C08 still demands: nothing delivered, consumers not kept blocked, Run returns *)
+      (k =? 0) && cl && negb (is_rhang rc)
+  | _ =>
   same_seq ordered n obs (ids (cyc_prefix es k)) && cl &&
   match cancel, bound lim pas n with
   | None, Some b => (k =? b) && is_rok rc
@@ -412,6 +427,7 @@ Definition spec_b (lim pas : nat) (es : list entry) (cancel : option nat) (order
       if b <? m then (k =? b) && is_rok rc
       else (m <=? k) && (k <=? b) && (k <=? m + slack) && is_rok_or_canceled rc
   | Some m, None => (m <=? k) && (k <=? m + slack) && is_rok_or_canceled rc
+  end
   end.
 
 (* The consumer side: what the next Acquire of any instance does once the provider is done
